@@ -986,6 +986,13 @@ class MementoFunctionHashRule(HashRule):
         # Add transitive dependencies:
         memento_fn = self.memento_fn
 
+        # The plain helpers of the package a Memento function lives in belong to it, whichever
+        # package the function at the root lives in: beneath this function they are followed
+        # the way they are when its own version is computed
+        own_module = inspect.getmodule(memento_fn.src_fn)
+        if own_module is not None:
+            package_scope = package_scope | {own_module.__package__}
+
         for dep in memento_fn.required_dependencies:
             HashRule._visit_dependency(
                 result=result,
